@@ -929,20 +929,28 @@ def rule_header_tables_agree(res, rid, m):
     ids_r = {MH + "::getInterfaceId": "interfaceId", MH + "::getVendorId": "vendorId"}
 
     def table(fn, ids):
+        """message type value -> {ids used}, by partial evaluation of fn with the message type fixed"""
+        from cmpverif import tables
+        sel = {prm["decl"] for prm in fn.params if (prm["t"].get("s") or "").replace("const ", "").strip().endswith("MessageType")}
+
+        def bind(v):
+            def b(n):
+                if n.get("k") == "ref" and n.get("decl") in sel:
+                    return v
+                if n.get("k") == "call" and callee_name(n) == PKT + "::getMessageType" and strip_all_casts(n.get("obj", {})).get("k") == "this":
+                    return v
+                return None
+            return b
         t = {}
-        for p in paths.enumerate_paths(fn):
-            sw = [a for a in p.atoms if a[0] == "switch"]
-            if len(sw) != 1:
-                continue
-            val = sw[0][2]
-            got = sorted({ids[n] for n in (callee_name(c) for c in p.calls()) if n in ids})
-            keys = [val] if val != "default" else ["default"]
-            for k in keys:
-                t.setdefault(k, set()).add(tuple(got))
+        vals = [e["value"] for e in en["enumerators"]]
+        for v in vals + ["default"]:
+            try:
+                ex = tables.trace(fn, bind(max(vals) + 1 if v == "default" else v), lambda c: callee_name(c) in ids)
+            except tables.Unsupported as e:
+                raise Broken("%s is not a table over the message type: %s" % (fn.name, e))
+            t[v] = {tuple(sorted({ids[callee_name(c)] for c in ex}))}
         return t
     tw, tr = table(w, ids_w), table(r, ids_r)
-    if not tw or not tr:
-        raise Broken("message-header writer/reader have no switch over the message type")
     for e in en["enumerators"]:
         a = tw.get(e["value"], tw.get("default"))
         b = tr.get(e["value"], tr.get("default"))
